@@ -29,6 +29,8 @@ pub struct ProbeState {
     /// frames whose scale is more than a factor two away from every expected scale (kept: first 8)
     stray: Vec<Vec<f64>>,
     stray_seen: u64,
+    /// how many of the first (systematic) bits the probe decoder flips in its answer
+    flips: usize,
 }
 
 type Frames = Arc<Mutex<ProbeState>>;
@@ -86,10 +88,12 @@ impl LdpcDecoder for ProbeDecoder {
                 g.stray_seen += 1;
             }
         }
-        // hard decision with the first bit flipped: exactly one (systematic) bit error per frame
+        // hard decision with the first bit(s) flipped: one systematic bit error per frame, or, when an
+        // outer-code threshold t is set, t + 1 of them (every frame is a frame error of the outer code too)
+        let flips = self.0.lock().unwrap().flips.max(1);
         let mut cw: Vec<u8> = llrs.iter().map(|&x| u8::from(x <= 0.0)).collect();
-        if !cw.is_empty() {
-            cw[0] ^= 1;
+        for b in cw.iter_mut().take(flips) {
+            *b ^= 1;
         }
         Err(DecoderOutput { codeword: cw, iterations: max })
     }
@@ -330,24 +334,28 @@ pub fn check(c: &Case, p: &mut Probe) -> Check {
     let symbols_per_frame = if c.psk8 { kept / 3 } else { kept };
     let want_samples = if npts == 1 { 6000usize } else { 4000 };
     let nerr = (want_samples.div_ceil(symbols_per_frame)).max(20) as u64;
-    let state = ProbeState { expected: sigmas.iter().map(|&s| expected_scale(c.psk8, s)).collect(), cap: 3 * nerr as usize + 64, kept: vec![Vec::new(); npts], seen: vec![0; npts], stray: Vec::new(), stray_seen: 0 };
+    // outer-code accounting threshold (the BCH statistics flag): 0 in three fifths of the cases, else 1
+    // or 2 (never so large that the probe could not produce t + 1 systematic bit errors); it changes
+    // what is counted, never what is transmitted
+    let bch: u64 = ([0u64, 0, 0, 1, 2][(c.h.ones.len() + n) % 5]).min(k.saturating_sub(1) as u64);
+    let state = ProbeState { flips: bch as usize + 1, expected: sigmas.iter().map(|&s| expected_scale(c.psk8, s)).collect(), cap: 3 * nerr as usize + 64, kept: vec![Vec::new(); npts], seen: vec![0; npts], stray: Vec::new(), stray_seen: 0 };
     let frames: Frames = Arc::new(Mutex::new(state));
     let probe = ProbeFactory(frames.clone());
     let ctx0 = format!("[{}x{} pattern {:?} interleaver {:?} {} Eb/N0 points {ebn0s_db:?} dB, expected sigmas {sigmas:.4?}]", r, n, c.pattern, c.interleaver, if c.psk8 { "8PSK" } else { "BPSK" });
     let modulation = if c.psk8 { Modulation::Psk8 } else { Modulation::Bpsk };
     let run = || -> Result<(Vec<ldpc_toolbox::simulation::ber::Statistics>, (usize, usize, usize, f64)), String> {
         if c.via_builder {
-            let b = BerTestBuilder { h: h.clone(), decoder_implementation: probe.clone(), modulation, puncturing_pattern: c.pattern.as_deref(), interleaving_columns: c.interleaver, max_frame_errors: nerr, max_iterations: 5, ebn0s_db: &ebn0s_db, reporter: None, bch_max_errors: 0 }.build().map_err(|e| e.to_string())?;
+            let b = BerTestBuilder { h: h.clone(), decoder_implementation: probe.clone(), modulation, puncturing_pattern: c.pattern.as_deref(), interleaving_columns: c.interleaver, max_frame_errors: nerr, max_iterations: 5, ebn0s_db: &ebn0s_db, reporter: None, bch_max_errors: bch }.build().map_err(|e| e.to_string())?;
             let sizes = (b.k(), b.n_cw(), b.n(), b.rate());
             Ok((b.run().map_err(|e| e.to_string())?, sizes))
         } else if c.psk8 {
             use ldpc_toolbox::simulation::factory::Ber;
-            let b = BerTest::<Psk8, _>::new(h.clone(), probe.clone(), c.pattern.as_deref(), c.interleaver, nerr, 5, &ebn0s_db, None, 0).map_err(|e| e.to_string())?;
+            let b = BerTest::<Psk8, _>::new(h.clone(), probe.clone(), c.pattern.as_deref(), c.interleaver, nerr, 5, &ebn0s_db, None, bch).map_err(|e| e.to_string())?;
             let sizes = (b.k(), b.n_cw(), b.n(), b.rate());
             Ok((b.run().map_err(|e| e.to_string())?, sizes))
         } else {
             use ldpc_toolbox::simulation::factory::Ber;
-            let b = BerTest::<Bpsk, _>::new(h.clone(), probe.clone(), c.pattern.as_deref(), c.interleaver, nerr, 5, &ebn0s_db, None, 0).map_err(|e| e.to_string())?;
+            let b = BerTest::<Bpsk, _>::new(h.clone(), probe.clone(), c.pattern.as_deref(), c.interleaver, nerr, 5, &ebn0s_db, None, bch).map_err(|e| e.to_string())?;
             let sizes = (b.k(), b.n_cw(), b.n(), b.rate());
             Ok((b.run().map_err(|e| e.to_string())?, sizes))
         }
@@ -545,6 +553,7 @@ pub fn check(c: &Case, p: &mut Probe) -> Check {
     p.class_if(c.interleaver.is_some_and(|x| x < 0), "backward-interleaver");
     p.class_if(info_punctured, "information-block-punctured");
     p.class_if(npts >= 2, "several-ebn0-points");
+    p.class_if(bch > 0, "outer-code-threshold-set");
     p.class_if(n % 3 != 0, "codeword-length-not-multiple-of-3");
     if (has_p && has_i) || (c.psk8 && (has_p || has_i)) {
         p.nontrivial();
@@ -587,7 +596,7 @@ pub fn property() -> Property {
         id: "C12",
         subs: vec![Box::new(Sub {
             name: "llr-frames",
-            rule: "configurations: systematic H by construction ([H0 | staircase] or [H0 | unit lower triangular], 2 <= r <= 12, n = p x bs with pattern length p in 1..=12 and bs a multiple of 3; in a fifth of the cases neither p nor bs is a multiple of 3, and with 8PSK the pattern then keeps 3, 6 or 9 blocks, so that the transmitted length is a multiple of 3 although the codeword length is not), puncturing pattern none / AR4JA-like 1,1,1,1,0 / random with >= 1 true (may puncture information blocks), interleaver none or +-c with c a divisor of the transmitted length, BPSK or 8PSK, Eb/N0 chosen for an expected sigma of 0.08-0.13 (BPSK) or 0.025-0.048 (8PSK); one Eb/N0 point, or two or three in any order whose sigmas halve from level to level (frames are attributed to a point by their mean |LLR|, which differs by a factor >= 4 between points; a point whose statistics report frames although none of its scale reached the decoder is a violation, as is a majority of frames more than a factor 2 away from every point's scale), through BerTest::new or BerTestBuilder; a probe DecoderFactory records every LLR vector and answers Err with one systematic bit flipped. Oracles per frame: length n; punctured positions bit-exactly +0.0, all others finite and non-zero; signs equal the own systematic re-encoding of the first k sign bits (or, when information blocks are punctured, extend to a codeword by an own GF(2) solve); reported k, N_cw, N, rate. no two recorded frames bit-identical (independence across frames and workers). Noise: received samples recovered from the LLRs (BPSK exactly, 8PSK by Gauss-Newton inversion of the own exact LLR function) with the expected sigma computed from (k, N after puncturing, bits per symbol, Eb/N0); mean, variance (Wilson-Hilferty), <w,s> scale statistic, lag-1 and re/im correlation within +-7 sigma, per Eb/N0 point, once >= 3500 samples were collected for it. Non-trivial = puncturing and interleaving both present, or 8PSK with either; inner = frames examined",
+            rule: "configurations: systematic H by construction ([H0 | staircase] or [H0 | unit lower triangular], 2 <= r <= 12, n = p x bs with pattern length p in 1..=12 and bs a multiple of 3; in a fifth of the cases neither p nor bs is a multiple of 3, and with 8PSK the pattern then keeps 3, 6 or 9 blocks, so that the transmitted length is a multiple of 3 although the codeword length is not), puncturing pattern none / AR4JA-like 1,1,1,1,0 / random with >= 1 true (may puncture information blocks), interleaver none or +-c with c a divisor of the transmitted length, BPSK or 8PSK, Eb/N0 chosen for an expected sigma of 0.08-0.13 (BPSK) or 0.025-0.048 (8PSK); one Eb/N0 point, or two or three in any order whose sigmas halve from level to level (frames are attributed to a point by their mean |LLR|, which differs by a factor >= 4 between points; a point whose statistics report frames although none of its scale reached the decoder is a violation, as is a majority of frames more than a factor 2 away from every point's scale), through BerTest::new or BerTestBuilder, with the outer-code accounting threshold 0 (three fifths), 1 or 2; a probe DecoderFactory records every LLR vector and answers Err with one systematic bit flipped. Oracles per frame: length n; punctured positions bit-exactly +0.0, all others finite and non-zero; signs equal the own systematic re-encoding of the first k sign bits (or, when information blocks are punctured, extend to a codeword by an own GF(2) solve); reported k, N_cw, N, rate. no two recorded frames bit-identical (independence across frames and workers). Noise: received samples recovered from the LLRs (BPSK exactly, 8PSK by Gauss-Newton inversion of the own exact LLR function) with the expected sigma computed from (k, N after puncturing, bits per symbol, Eb/N0); mean, variance (Wilson-Hilferty), <w,s> scale statistic, lag-1 and re/im correlation within +-7 sigma, per Eb/N0 point, once >= 3500 samples were collected for it. Non-trivial = puncturing and interleaving both present, or 8PSK with either; inner = frames examined",
             cases: |t| t.pick(500, 20_000),
             strategy,
             check,
